@@ -221,7 +221,8 @@ PROPS = {
         rule="(a) state machine over the nine tables of a CdnsBlock: add (pool values to force repeats, fresh values from large domains to force growth/rehash, neighbours differing in "
              "exactly one member, always separately built objects), find, get, clear, snapshot / rollback by block assignment (copy and move; the value handled last re-added first), hash-colliding value pairs found by a birthday search, "
              "one case in 160 starting with a table of 40000..72000 (thorough 140000) entries, periodic full verification, up to ~300 ops; reference = map value->index. Oracle: equal value -> same "
-             "index and no growth, new value -> unused index, get(i) keeps denoting the value stored at i until clear, find agrees, a==b => hash(a)==hash(b). (b) record streams through the "
+             "index and no growth, new value -> unused index, get(i) keeps denoting the value stored at i until clear, find agrees, a==b => hash(a)==hash(b). (a2) a block filled by the decoder (CdnsBlockRead(dec, params) on a library-written file): every string / class-type entry added again and the records it was written from "
+             "buffered again - same indices, no table grows. (b) record streams through the "
              "exporter with tiny max_block_items: in the independent parse of every block no two equal entries in any table, every entry reachable from that block's own items, every "
              "index in range. Non-trivial: >=1 dedup hit and (>=16 distinct entries or a clear) (a); >=2 flushed blocks (b).",
         level_text="model-based state machine on the table API plus invariants on the independent parse of exporter output",
@@ -230,6 +231,7 @@ PROPS = {
         assumptions=[],
         jobs=[
             dict(harness="tables", prop="c11_tables", cases=(8000, 100000), size=(30, 100)),
+            dict(harness="tables", prop="c11_readblock", cases=(8000, 100000), size=(30, 60)),
             dict(harness="hist", prop="hist_c11", cases=(6000, 150000), size=(40, 120)),
         ],
     ),
